@@ -6,7 +6,7 @@ Term syntax (no spaces inside a term):
   key   `K:eph:cd:ini:rcp:t|f`   sig   `S:signer:cd:eph:dst`
   rb    `nodes/total/rec;rec…` (`-` = no records) | `other/code`
   msg   `req/rid/body` | `resp/rid/RB` | `undec`
-  ct    `E[key|nonce|msg|ok|bad]` | `G`
+  ct    `E[key|nonce|ctr|msg|ok|bad]` | `G`   (ctr = 4-byte prefix of the nonce; 0 in handshakes)
   pkt   `M~src~nonce~ct` | `W~nonce~cd~seq` | `H~src~nonce~sig~eph~rec~ct`
 -/
 import Driver.Common
@@ -85,12 +85,12 @@ def pCt (s : String) : Ct :=
   if s == "G" then .garbage else
   let inner := ((s.drop 2).toString.dropEnd 1).toString
   match inner.splitOn "|" with
-  | [k, n, m, ok] => .enc (pKey k) (nat! n) (pMsg m) (ok == "ok")
+  | [k, n, ctr, m, ok] => .enc (pKey k) (nat! n) (nat! ctr) (pMsg m) (ok == "ok")
   | _ => .garbage
 
 def sCt : Ct → String
   | .garbage => "G"
-  | .enc k n m ok => s!"E[{sKey k}|{n}|{sMsg m}|{if ok then "ok" else "bad"}]"
+  | .enc k n ctr m ok => s!"E[{sKey k}|{n}|{ctr}|{sMsg m}|{if ok then "ok" else "bad"}]"
 
 def pPkt (s : String) : Option Pkt :=
   match s.splitOn "~" with
